@@ -1,0 +1,67 @@
+//go:build verif
+
+// Contracts for the deductive verification machinery kept in /verif (govc).
+// Comment-only file, compiled only under the build tag "verif".
+package cmd
+
+// ---- C19: mockery migrate ------------------------------------------------------------
+
+//@ func (*tableWriter).Append props=C19
+//@   requires t.seenMessages != nil
+//@   assigns t.seenMessages, t.idx
+
+// Reads the v2 config by reflection and only records deprecation notices.
+//@ func checkDeprecatedTemplateVariables props=C19
+//@   requires conf != nil && tbl != nil && tbl.seenMessages != nil
+//@   ensures tbl.seenMessages == old(tbl.seenMessages)
+//@   assigns tbl.seenMessages, tbl.idx
+
+// Every v2 setting with a v3 counterpart lands, with the same value, under its v3 name or
+// template-data key, at the level being migrated; nothing else of the v3 config changes
+// ("no value appears that the v2 file did not contain").
+//@ func migrateConfig props=C19
+//@   requires tbl != nil && tbl.seenMessages != nil && v3Config != nil
+//@   requires *v3Config != nil ==> (*v3Config).TemplateData != tbl.seenMessages
+//@   let v3 = *v3Config
+//@   let td = v3.TemplateData
+//@   ensures#nil v2Config == nil ==> *v3Config == old(*v3Config) && (*v3Config != nil ==> **v3Config == old(**v3Config))
+//@   ensures#alloc v2Config != nil ==> v3 != nil && (old(*v3Config) != nil ==> v3 == old(*v3Config)) && (old(*v3Config) == nil ==> fresh(v3))
+//@   ensures#all v2Config != nil ==> v3.All == v2Config.All
+//@   ensures#anchors v2Config != nil ==> v3.Anchors == v2Config.Anchors
+//@   ensures#config v2Config != nil ==> v3.ConfigFile == v2Config.Config
+//@   ensures#dir v2Config != nil ==> v3.Dir == v2Config.Dir
+//@   ensures#exclude v2Config != nil ==> v3.ExcludeSubpkgRegex == v2Config.Exclude
+//@   ensures#excluderegex v2Config != nil ==> v3.ExcludeInterfaceRegex == v2Config.ExcludeRegex
+//@   ensures#includeregex v2Config != nil ==> v3.IncludeInterfaceRegex == v2Config.IncludeRegex
+//@   ensures#loglevel v2Config != nil ==> v3.LogLevel == v2Config.LogLevel
+//@   ensures#mockname v2Config != nil ==> v3.StructName == v2Config.MockName
+//@   ensures#outpkg v2Config != nil ==> v3.PkgName == v2Config.Outpkg
+//@   ensures#recursive v2Config != nil ==> v3.Recursive == v2Config.Recursive
+//@   ensures#boilerplate v2Config != nil && v2Config.BoilerplateFile != nil ==> ("boilerplate-file" in td) && td["boilerplate-file"] == box(v2Config.BoilerplateFile)
+//@   ensures#buildtags v2Config != nil && v2Config.MockBuildTags != nil ==> ("mock-build-tags" in td) && td["mock-build-tags"] == box(*v2Config.MockBuildTags)
+//@   ensures#unroll v2Config != nil && v2Config.UnrollVariadic != nil ==> ("unroll-variadic" in td) && td["unroll-variadic"] == box(*v2Config.UnrollVariadic)
+//@   ensures#expecter v2Config != nil && v2Config.WithExpecter != nil ==> ("with-expecter" in td) && td["with-expecter"] == box(*v2Config.WithExpecter)
+//@   ensures#nokey v2Config != nil && td != nil ==> (forall k string :: (k in td) && (old(*v3Config) == nil || !old(k in (*v3Config).TemplateData))
+//@        ==> (k == "boilerplate-file" && v2Config.BoilerplateFile != nil) || (k == "mock-build-tags" && v2Config.MockBuildTags != nil)
+//@         || (k == "unroll-variadic" && v2Config.UnrollVariadic != nil) || (k == "with-expecter" && v2Config.WithExpecter != nil))
+//@   ensures#tdnil v2Config != nil && v2Config.BoilerplateFile == nil && v2Config.MockBuildTags == nil && v2Config.UnrollVariadic == nil && v2Config.WithExpecter == nil ==> td == (old(*v3Config) == nil ? nil : old((*v3Config).TemplateData))
+//@   ensures#others v2Config != nil && old(*v3Config) != nil ==> sameExcept(v3, old(**v3Config), "All", "Anchors", "ConfigFile", "Dir", "ExcludeSubpkgRegex", "ExcludeInterfaceRegex", "IncludeInterfaceRegex", "LogLevel", "StructName", "PkgName", "Recursive", "TemplateData")
+//@   ensures#othersfresh v2Config != nil && old(*v3Config) == nil ==> sameExcept(*v3, zero(config.Config), "All", "Anchors", "ConfigFile", "Dir", "ExcludeSubpkgRegex", "ExcludeInterfaceRegex", "IncludeInterfaceRegex", "LogLevel", "StructName", "PkgName", "Recursive", "TemplateData")
+//@   ensures#v2frame v2Config != nil ==> *v2Config == old(*v2Config)
+//@   assigns *v3Config, **v3Config, (*v3Config).TemplateData, tbl.seenMessages, tbl.idx, fresh
+
+// The migrate command proper: the input file is opened read-only, every level of the v2 file is
+// migrated into the same-named level of the v3 config, package names are preserved exactly, the
+// only invented value is the top-level template, and the result is written once, to the
+// requested output path.
+//   top(v3, v2): the top-level settings carried over by migrateConfig.
+//@ define topOK(a config.Config, b V2Config) bool = a.All == b.All && a.Anchors == b.Anchors && a.ConfigFile == b.Config && a.Dir == b.Dir
+//@     && a.ExcludeSubpkgRegex == b.Exclude && a.ExcludeInterfaceRegex == b.ExcludeRegex && a.IncludeInterfaceRegex == b.IncludeRegex
+//@     && a.LogLevel == b.LogLevel && a.StructName == b.MockName && a.PkgName == b.Outpkg && a.Recursive == b.Recursive
+//@ func run props=C19
+//@   site OpenFile@0: $0 == os.O_RDONLY
+//@   site OpenFile@1: $0 == 578 && $recv == pathlib.NewPath(v3ConfPath)
+//@   site#top Encode: topOK(v3.Config, v2.V2Config) && v3.Template != nil && *v3.Template == "testify"
+//@   site#pkgs Encode: forall p string :: (p in v3.Packages) <==> (p in v2.Packages)
+//@   loop 0: invariant topOK(v3.Config, v2.V2Config) && v3.Template != nil && *v3.Template == "testify" && tbl != nil && tbl.seenMessages != nil
+//@   loop 0: invariant#pkgs forall p string :: (p in v3.Packages) <==> ((p in v2.Packages) && $visited[p])
